@@ -901,6 +901,29 @@ def check_project(rep, g, tag, regen=False):
                 if ws != members - {'', '.'}:
                     fail('oracle self-check: recipe sources and archive members differ',
                          repr(sorted(ws ^ (members - {'', '.'}))[:6]), ('harness',))
+        # (5) the three formats pack the same members (dist = dist-gzip; dist-bzip2 and dist-zip are targets of their own)
+        rc, _, out = project.make(s.build, ['dist-gzip', 'dist-bzip2', 'dist-zip'])
+        if rc != 0:
+            fail('make dist-gzip dist-bzip2 dist-zip failed', out[-1500:])
+        else:
+            import zipfile
+            for ext, lister in (('.tar.bz2', lambda f: tarfile.open(f).getnames()),
+                                ('.zip', lambda f: [n.rstrip('/') for n in zipfile.ZipFile(f).namelist()])):
+                arcs = [n for n in os.listdir(s.build) if n.endswith(ext)]
+                if len(arcs) != 1:
+                    fail('make dist-* did not produce exactly one %s archive' % ext, repr(arcs))
+                    continue
+                try:
+                    other, bad2 = strip_prefix(arcs[0][:-len(ext)], lister(os.path.join(s.build, arcs[0])))
+                except Exception as e:
+                    fail('the %s archive cannot be read' % ext, repr(e))
+                    continue
+                files_gz = set(m for m in members if m and not os.path.isdir(os.path.join(src, m)))
+                files_other = set(m for m in other if m and not os.path.isdir(os.path.join(src, m)))
+                if bad2 or files_gz != files_other:
+                    fail('the %s archive does not contain the same files as the .tar.gz archive' % ext,
+                         'only in .tar.gz: %r ; only in %s: %r ; outside the prefix: %r' % (
+                             sorted(files_gz - files_other)[:8], ext, sorted(files_other - files_gz)[:8], bad2[:3]))
         if project.snapshot(src) != snap:
             fail('configure / make dist modified the source directory', '')
         # (5) unpacked archive configures to the same Makefile modulo paths
